@@ -274,3 +274,100 @@ def excess_cases(window=100):
             finally:
                 w.stop()
             yield {'paused': pause, 'shape': shape}, bad
+
+
+def extreme_size_cases_client(quirk, win, pkt, nbytes=600):
+    """The same with the roles swapped: a real CLIENT opens the channel and a
+    raw server confirms it with extreme window / maximum packet size values
+    (quirk 'dropbear_zlib': the server says it is dropbear and compression is
+    on - the work-around on the confirmation path).  The client writes nbytes.
+    Returns (case, violations)."""
+    import asyncio
+    loop = new_loop()
+    loop.max_iterations = 200000
+    bad = []
+    sizes = []
+    st = {}
+    res = {}
+    skw, ckw = {}, {}
+    if quirk == 'dropbear_zlib':
+        skw = dict(server_version='dropbear_2022.83',
+                   compression_algs=['zlib'])
+        ckw = dict(compression_algs=['zlib'])
+
+    def on_conn(conn):
+        res['rconn'] = conn
+
+        def on_packet(t, payload):
+            if t == 5:
+                conn.raw_send(6, String(b'ssh-userauth'))
+            elif t == 50:
+                conn.raw_send(52, b'')
+            elif t == 90:
+                st['c'] = int.from_bytes(payload[12:16], 'big')
+                conn.raw_send(91, UInt32(st['c']) + UInt32(3) + UInt32(win) +
+                              UInt32(pkt))
+            elif t == 98:
+                conn.raw_send(99, UInt32(st['c']))
+            elif t == 94:
+                sizes.append(int.from_bytes(payload[5:9], 'big'))
+        conn.on_packet = on_packet
+
+    async def go():
+        res['acc'] = await rawpeer.raw_listen(
+            '127.0.0.1', 2222, on_conn, server_host_keys=[hostkey()], **skw)
+        conn = await asyncssh.connect(
+            '127.0.0.1', 2222, known_hosts=None, config=None,
+            client_keys=None, username='u', **ckw)
+        res['conn'] = conn
+        chan, _ = await conn.create_session(asyncssh.SSHClientSession,
+                                            command='x', encoding=None)
+        chan.write(bytes(range(256)) * (nbytes // 256) +
+                   bytes(range(nbytes % 256)))
+        await asyncio.sleep(0.2)
+
+    old = signal.signal(signal.SIGVTALRM, _alarm)
+    signal.setitimer(signal.ITIMER_VIRTUAL, 3.0)
+    try:
+        loop.run_until_complete(go())
+        loop.run_until_idle()
+    except (Watchdog, Spin):
+        bad.append(f'C08/C10 client spins writing to a channel confirmed '
+                   f'with window={win} max_pktsize={pkt}')
+    except (Deadlock, asyncssh.Error, OSError) as exc:
+        bad.append(f'client session failed: {type(exc).__name__}: {exc}')
+    finally:
+        signal.setitimer(signal.ITIMER_VIRTUAL, 0)
+        signal.signal(signal.SIGVTALRM, old)
+    for c in list(loop.exceptions):
+        if isinstance(c.get('exception'), Watchdog):
+            loop.exceptions.remove(c)
+            bad.append(f'C08/C10 client spins writing to a channel confirmed '
+                       f'with window={win} max_pktsize={pkt}')
+    for n in sizes:
+        if n > pkt:
+            bad.append(f'C08 NeverExceedPktSize: client sent a data packet of '
+                       f'{n} bytes > advertised {pkt}')
+            break
+    if 0 in sizes:
+        bad.append('C08/C10 empty data packet sent')
+    if sum(sizes) > win:
+        bad.append(f'C08 NeverExceedPeerWindow: client sent {sum(sizes)} '
+                   f'bytes into a window of {win}')
+    if len(sizes) > nbytes + 5:
+        bad.append(f'C08/C10 unbounded number of data packets ({len(sizes)})')
+    if loop.exceptions:
+        bad.append('C10 exception reached the event loop: ' +
+                   str(loop.exceptions[0].get('exception')))
+    try:
+        for k in ('conn', 'rconn'):
+            if k in res:
+                res[k].abort()
+        if 'acc' in res:
+            res['acc'].close()
+        loop.run_until_idle()
+    except BaseException:               # pylint: disable=broad-except
+        pass
+    close_loop(loop)
+    return {'window': win, 'pktsize': pkt, 'quirk': quirk,
+            'role': 'client'}, bad
